@@ -29,8 +29,11 @@ def exhaustive(tier):
     return tier == "thorough"
 
 
+BARE = [0]
+
+
 def required(tier):
-    return {"pairs_convertible": 1000, "pairs_refused": 10000, "predicate_evals": 5000,
+    return {"pairs_convertible": 1000, "pairs_refused": 10000, "predicate_evals": 5000, "predicate_evals_bare_number": 1000,
             "derived_dimension_specs": 1000, "derived_specs_matching_the_unit": 100,
             "listing_checked": 300, "listing_checked_dimensionless": 10, "cache_entries_audited": 300, "gen_registries": 10,
             "adjacent_exponent_twins": 1000}
@@ -207,6 +210,25 @@ def run_shard(spec, rec):
                 rec.violation("predicate-disagrees", {"predicate": k, "a": sa, "b": sb,
                                                       "model_same_dimension": same, "got": v},
                               predicate=k, workload=tag)
+        # a bare NUMBER as the other side counts as dimensionless, whatever its value (zero and NaN included):
+        # the predicate answers exactly what converting to the dimensionless unit does
+        oc0 = outcome(lambda: qa.to(ureg.Unit("")), pint)[0]
+        if oc0 in ("ok", "dimerr"):
+            BARE[0] += 1
+            nums = (0, 0.0, -0.0, float("nan"), 1, 2.5, Decimal(0), F(0), False, True, -3)
+            for num in (nums[BARE[0] % len(nums)], nums[(BARE[0] * 7 + 3) % len(nums)]):
+                for k, fn in (("Quantity.is_compatible_with(number)", lambda: qa.is_compatible_with(num)),
+                              ("ureg.is_compatible_with(quantity, number)", lambda: ureg.is_compatible_with(qa, num))):
+                    rec.count("predicate_evals_bare_number")
+                    o2, v2 = outcome(fn, pint)
+                    if o2 == "range":
+                        # Quantity.dimensionless goes through the root-unit FACTOR, which left the float range
+                        rec.count("numeric_range_skipped")
+                        continue
+                    if o2 != "ok" or v2 is not (oc0 == "ok"):
+                        rec.violation("predicate-disagrees", {"predicate": k, "a": sa, "number": repr(num),
+                                                              "converts_to_dimensionless": oc0, "got": (o2, repr(v2))},
+                                      predicate=k, workload=tag)
 
     def ua_(x):
         if isinstance(x, str):
